@@ -111,10 +111,15 @@ def short_args(args):
 X86_POOL = ["mm256_loadu_ps", "mm256_storeu_ps", "mm256_fmadd_ps", "mm256_mul_ps", "mm256_add_ps", "mm256_setzero_ps", "avx2_reg_copy_ps", "mm256_prefix_store_ps", "mm256_prefix_load_ps", "avx2_mask_storeu_ps", "mm256_broadcast_ss_scalar", "avx2_reduce_add_wide_ps"]
 
 
-def load_env():
+def load_env(extra=None):
     import corpus.seeds as S
 
     env = {"SEEDS": S.SEEDS, "SUBPROCS": list(S.SUBPROCS), "CONFIGS": S.CONFIGS, "ORIGIN": dict(S.ORIGIN)}
+    if extra == "tight_replace":
+        import corpus.tight_replace as TR
+
+        env["SEEDS"] = list(S.SEEDS) + list(TR.TR_SEEDS)
+        env["SUBPROCS"] = list(TR.TR_SUBPROCS) + list(S.SUBPROCS)
     try:
         import exo.platforms.x86 as X
 
@@ -315,7 +320,7 @@ def sweep_seed(job):
     """worker: one seed procedure, all ops.  job: dict"""
     t_start = time.time()
     sys.setrecursionlimit(10000)
-    env = load_env()
+    env = load_env(job.get("extra_corpus"))
     name = job["seed_name"]
     props = set(job["props"])
     tier = job["tier"]
